@@ -126,6 +126,19 @@ let ana_case id c =
       (files_of_sx (field "files" b),
        List.map (fun e -> match ints_of_sx e with [p; v] -> (p, v <> 0) | _ -> failwith "merged") (args (field "merged" b)),
        int_of_sx (List.hd (args (field "tick" b))), int_of_sx (List.hd (args (field "author" b))))) (args (field "pre" obs)) in
+  (* Fork: every clone starts with the files of the forked analysis *)
+  (match field_opt "forked" obs with
+   | Some fk ->
+       let base = files_of_sx (field "files" (field "base" fk)) in
+       let bs = List.filter (fun x -> tag x = "b") (args fk) in
+       let mb = { files = List.map (fun (p, l) -> (z_of_int p, zs l)) base; merged = [] } in
+       let mf = fork (nat_of_int (List.length bs)) mb in
+       List.iteri (fun j (x, m) ->
+         let got = files_of_sx (field "files" x) in
+         let want = List.map (fun (p, l) -> (int_of_z p, unzs l)) m.files in
+         if got <> want then mismatch id (Printf.sprintf "Fork: branch %d does not start with the files of the forked analysis" j))
+         (List.combine bs mf)
+   | None -> ());
   let day = int_of_sx (List.hd (args (field "day" obs))) in
   let (_, _, tick0, author0) = List.hd pre in
   let mday = int_of_z (pack (z_of_int people) (z_of_int author0) (z_of_int tick0)) in
@@ -229,6 +242,9 @@ let ana_case id c =
 
 let () =
   iter_cases (fun id c ->
+    if field_opt "hang" (field "obs" c) <> None then
+      propfail id "Merge (or reading the merged files back) does not terminate"
+    else
     match field_opt "people" c with
     | Some _ -> count "ana_cases"; ana_case id c
     | None -> count "file_cases"; file_case id c)
